@@ -1,5 +1,277 @@
 package main
 
-import "golang.org/x/tools/go/ssa"
+// Monitor rule (DESIGN.md §3.7): guarded_by declarations, havoc/assume at acquire,
+// assert at release, and guard obligations on accesses to protected state.
 
-func lockHookImpl(fr *Frame, st *State, in ssa.Instruction, ct *Contract, recv *Val, before bool) {}
+import (
+	"fmt"
+	"go/types"
+	"strings"
+
+	"golang.org/x/tools/go/ssa"
+)
+
+type guardDecl struct {
+	g        *Guarded
+	structT  string // struct key, e.g. "bus.serviceImpl"
+	mutexFld string
+	fields   map[string]bool // protected field names of the same struct
+	rw       bool
+}
+
+func (e *Engine) guardIndex() map[string]*guardDecl {
+	if e.guardIdx != nil {
+		return e.guardIdx
+	}
+	e.guardIdx = map[string]*guardDecl{}
+	for _, g := range e.guards {
+		tn := strings.TrimPrefix(g.RecvType, "*")
+		pkgName := g.Pkg
+		if i := strings.LastIndex(pkgName, "/"); i >= 0 {
+			pkgName = pkgName[i+1:]
+		}
+		if p := e.pkgByPath[g.Pkg]; p != nil {
+			pkgName = p.Name()
+		}
+		gd := &guardDecl{g: g, structT: pkgName + "." + tn, fields: map[string]bool{}}
+		// mutex expression: recv.field
+		if g.Mutex.Kind == ESel && g.Mutex.Args[0].Kind == EIdent && g.Mutex.Args[0].Name == g.RecvName {
+			gd.mutexFld = g.Mutex.Name
+		} else {
+			e.loadErrs = append(e.loadErrs, "guarded_by: mutex must be "+g.RecvName+".<field>")
+			continue
+		}
+		for _, l := range g.Locs {
+			x := l
+			for x.Kind == EIndex {
+				x = x.Args[0]
+			}
+			if x.Kind == ESel && x.Args[0].Kind == EIdent && x.Args[0].Name == g.RecvName {
+				gd.fields[x.Name] = true
+			}
+		}
+		e.guardIdx[gd.structT+"."+gd.mutexFld] = gd
+		for f := range gd.fields {
+			e.guardByField[gd.structT+"."+f] = gd
+		}
+	}
+	return e.guardIdx
+}
+
+func mutexFieldIndex(st *types.Struct, name string) (int, bool) {
+	for i := 0; i < st.NumFields(); i++ {
+		if st.Field(i).Name() == name {
+			_, isRW := st.Field(i).Type().(*types.Named)
+			_ = isRW
+			return i, shortTypeKey(st.Field(i).Type()) == "sync.RWMutex"
+		}
+	}
+	return -1, false
+}
+
+// fieldGuard returns the guard of a struct field address, if the field is lock-protected.
+func (c *FnCtx) fieldGuard(a *Addr) *guardRef {
+	if a == nil || a.Kind != AField || a.ST == nil {
+		return nil
+	}
+	c.eng.guardIndex()
+	gd := c.eng.guardByField[a.STName+"."+a.ST.Field(a.Idx).Name()]
+	if gd == nil {
+		return nil
+	}
+	mi, rw := mutexFieldIndex(a.ST, gd.mutexFld)
+	if mi < 0 {
+		return nil
+	}
+	return &guardRef{mutexID: SubRef(a.Ref, mi), field: a.ST.Field(a.Idx).Name(), rw: rw}
+}
+
+func (fr *Frame) heldTerms(st *State, g *guardRef) (w *Term, r *Term) {
+	gw := fr.c.eng.ghostFields["lockw"]
+	gr := fr.c.eng.ghostFields["lockr"]
+	if gw == nil || gr == nil {
+		return True, True
+	}
+	h := Heap{st: st}
+	w = h.loadGhost(g.mutexID, gw).X
+	r = Or(w, Lt(Num(0), h.loadGhost(g.mutexID, gr).X))
+	return w, r
+}
+
+// guardCheck emits the obligation that the protecting lock is held for this access.
+func (fr *Frame) guardCheck(st *State, in ssa.Instruction, g *guardRef, write bool, what string) {
+	if g == nil || fr.c.dry > 0 {
+		return
+	}
+	if fr.contract != nil && fr.contract.Opts["nolockcheck"] == "yes" {
+		return
+	}
+	w, r := fr.heldTerms(st, g)
+	goal := r
+	mode := "read"
+	if write {
+		goal = w
+		mode = "write"
+	}
+	name := fmt.Sprintf("guard:%s@%s#%d", g.field, what, fr.c.guardSeq(in, g.field+what))
+	fr.c.oblige(fr, st, "guard", name, goal, nil, fmt.Sprintf("%s of lock-protected %s requires the lock (%s mode): %s", mode, g.field, mode, in.String()), true)
+}
+
+func (c *FnCtx) guardSeq(in ssa.Instruction, key string) int {
+	if c.guardOrd == nil {
+		c.guardOrd = map[string]map[ssa.Instruction]int{}
+	}
+	m := c.guardOrd[key]
+	if m == nil {
+		m = map[ssa.Instruction]int{}
+		c.guardOrd[key] = m
+	}
+	if n, ok := m[in]; ok {
+		return n
+	}
+	m[in] = len(m) + 1
+	return m[in]
+}
+
+func lockKind(ct *Contract) string {
+	switch ct.Key {
+	case "(*sync.Mutex).Lock", "(*sync.RWMutex).Lock":
+		return "lock"
+	case "(*sync.RWMutex).RLock":
+		return "rlock"
+	case "(*sync.Mutex).Unlock", "(*sync.RWMutex).Unlock":
+		return "unlock"
+	case "(*sync.RWMutex).RUnlock":
+		return "runlock"
+	}
+	return ""
+}
+
+// lockHookImpl: monitor actions around Lock/Unlock contract applications.
+func lockHookImpl(fr *Frame, st *State, in ssa.Instruction, ct *Contract, recv *Val, before bool) {
+	c := fr.c
+	kind := lockKind(ct)
+	if kind == "" || recv == nil {
+		return
+	}
+	a := recv.Addr
+	if a == nil || a.Kind != AField || a.ST == nil {
+		return
+	}
+	c.eng.guardIndex()
+	gd := c.eng.guardIdx[a.STName+"."+a.ST.Field(a.Idx).Name()]
+	if gd == nil {
+		return
+	}
+	owner := &Val{K: VScalar, T: types.NewPointer(a.ET), X: a.Ref}
+	env := &Env{c: c, cur: st, old: fr.entry, vars: map[string]*Val{gd.g.RecvName: owner}, pkg: c.eng.pkgByPath[gd.g.Pkg]}
+	for k, v := range c.ghostVals {
+		env.vars[k] = v
+	}
+	switch {
+	case (kind == "unlock" || kind == "runlock") && before:
+		// release: the monitor invariant must hold again
+		if c.dry == 0 {
+			sn := st.clone()
+			sn.snaps = nil
+			if st.snaps == nil {
+				st.snaps = map[string]*State{}
+			}
+			st.snaps["unlock"] = sn
+		}
+		if kind == "unlock" {
+			for i, m := range gd.g.Monitor {
+				t, err := env.evalClause(m.E)
+				if err != nil {
+					c.errorf("monitor invariant %d of %s: %v", i+1, gd.structT, err)
+					continue
+				}
+				c.oblige(fr, st, "monitor", fmt.Sprintf("monitor#%d@call:%s", i+1, c.callOrd[in]), t, m.Tags, m.Text, len(m.Tags) == 0)
+			}
+		}
+	case (kind == "lock" || kind == "rlock") && !before:
+		// acquire: other threads may have changed the protected state; only the invariant is known
+		if c.dry == 0 || true {
+			for _, l := range gd.g.Locs {
+				locs, err := env.evalLocs(l)
+				if err != nil {
+					c.errorf("guarded_by %s: %v", gd.structT, err)
+					continue
+				}
+				fr.havocLocs(st, locs)
+			}
+			for _, m := range gd.g.Monitor {
+				t, err := env.evalClause(m.E)
+				if err != nil {
+					c.errorf("monitor invariant of %s: %v", gd.structT, err)
+					continue
+				}
+				c.addFact(st, t)
+			}
+			if c.dry == 0 {
+				sn := st.clone()
+				sn.snaps = nil
+				if st.snaps == nil {
+					st.snaps = map[string]*State{}
+				}
+				st.snaps["lock"] = sn
+			}
+		}
+	}
+}
+
+// restoreLocked: monitor rule for calls made while this function's receiver holds its own lock.
+// State protected by a lock that the current thread holds cannot be changed by other threads, and
+// the callee cannot take the write lock without deadlocking; so after a havoc-all the protected
+// locations of the receiver keep their values whenever the lock is held (read or write mode).
+func (fr *Frame) restoreLocked(pre, st *State) {
+	c := fr.c
+	top := c.top
+	if top == nil || top.fn.Signature.Recv() == nil || len(top.fn.Params) == 0 {
+		return
+	}
+	recv := top.vals[top.fn.Params[0]]
+	if recv == nil || recv.T == nil {
+		return
+	}
+	pt, ok := recv.T.Underlying().(*types.Pointer)
+	if !ok {
+		return
+	}
+	stt, ok := pt.Elem().Underlying().(*types.Struct)
+	if !ok {
+		return
+	}
+	c.eng.guardIndex()
+	key := structKey(pt.Elem())
+	for _, gd := range c.eng.guardIdx {
+		if gd.structT != key {
+			continue
+		}
+		mi, _ := mutexFieldIndex(stt, gd.mutexFld)
+		if mi < 0 {
+			continue
+		}
+		g := &guardRef{mutexID: SubRef(recv.X, mi)}
+		_, held := fr.heldTerms(pre, g)
+		envPre := &Env{c: c, cur: pre, vars: map[string]*Val{gd.g.RecvName: recv}, pkg: c.eng.pkgByPath[gd.g.Pkg]}
+		for _, l := range gd.g.Locs {
+			locs, err := envPre.evalLocs(l)
+			if err != nil {
+				continue
+			}
+			for _, loc := range locs {
+				if loc.ref == nil || loc.mapName == "*" {
+					continue
+				}
+				cur := st.hget(loc.mapName, loc.sort)
+				old := pre.hget(loc.mapName, loc.sort)
+				nv := Fresh("Hk."+loc.mapName, loc.sort)
+				c.addDef(Implies(held, Eq(nv, Store(cur, loc.ref, Select(old, loc.ref)))))
+				c.addDef(Implies(Not(held), Eq(nv, cur)))
+				st.hset(loc.mapName, nv)
+			}
+		}
+		c.trusted["monitor rule: state protected by a lock the current thread holds is unchanged by calls made while holding it"] = true
+	}
+}
